@@ -254,6 +254,30 @@ def _replay_known(modname: str):
     return findings.Known(mod.PROPERTY).replay_open(mod)
 
 
+def glob_regress(prop: str) -> list[str]:
+    import glob as _glob
+
+    return _glob.glob(os.path.join(VERIF, "regress", prop, "*.json"))
+
+
+def _replay_regress(modname: str, files: list[str]) -> list[dict]:
+    """-> violations (each annotated with the regression file it came from)."""
+    mod = importlib.import_module(modname)
+    out = []
+    for path in files:
+        with open(path) as fh:
+            rep = json.load(fh)
+        try:
+            vs = mod.replay(rep["subcheck"], rep["input"])
+        except Exception as exc:  # noqa: BLE001
+            raise HarnessError(f"replaying {path}: {type(exc).__name__}: {exc}") from exc
+        for v in vs:
+            v = dict(v)
+            v["regress_file"] = os.path.relpath(path, VERIF)
+            out.append(v)
+    return out
+
+
 def run_property(modname: str, tier: str, seed: int, workers: int) -> int:
     """Run all sub-checks of a property; write evidence; return the exit code."""
     from . import findings
@@ -271,6 +295,14 @@ def run_property(modname: str, tier: str, seed: int, workers: int) -> int:
             known_lines = pool0.apply(_replay_known, (modname,))
     else:
         known_lines = []
+
+    # 1b. regression tier: saved minimal inputs of repaired defects (regress/<ID>/*.json), replayed with the plain oracle
+    regress_files = sorted(glob_regress(prop))
+    regress_violations: list[dict] = []
+    if regress_files:
+        ctx1 = multiprocessing.get_context("fork")
+        with ctx1.Pool(1, maxtasksperchild=1) as pool1:
+            regress_violations = pool1.apply(_replay_regress, (modname, regress_files))
 
     # stale replay files of this property would be confusing: start clean
     import glob
@@ -359,7 +391,7 @@ def run_property(modname: str, tier: str, seed: int, workers: int) -> int:
     # 4. classify violations (known findings never reach here unless unlisted)
     new_violations = []
     seen_sigs = set()
-    for v in violations:
+    for v in regress_violations + violations:
         if known.matches(v):
             known_hits[v["signature"]] += 1
             continue
@@ -401,6 +433,7 @@ def run_property(modname: str, tier: str, seed: int, workers: int) -> int:
             "unspecified": dict(unspecified),
             "inconclusive": inconclusive,
             "known_findings_reconfirmed": known_lines,
+            "regression_inputs_replayed": len(regress_files),
             "known_finding_hits_in_search": dict(known_hits),
             "notes": sorted(set(notes))[:40],
             **extra,
